@@ -427,6 +427,41 @@ template <class T> struct conv<T, std::void_t<typename T::as_tuple>>
     static DV to(const T &x) { return conv<Tu>::to(Tu(const_cast<T &>(x).tied())); }
 };
 
+// ---- round 3: user types whose default-constructed object is NOT empty (default member initialisers), and a
+// trivially copyable type with padding whose reflect order is not its declaration order
+struct PFA // archive stack
+{
+    std::vector<uint8_t> xs{1, 2, 3};
+    int16_t t = 7;
+    std::map<uint8_t, uint8_t> m{{1, 1}};
+    template <class R> void reflect(R &r) { r &xs; r &t; r &m; }
+    auto tied() { return std::tie(xs, t, m); }
+    typedef std::tuple<std::vector<uint8_t>, int16_t, std::map<uint8_t, uint8_t>> as_tuple;
+};
+struct PFS // both stacks
+{
+    std::vector<uint8_t> xs{1, 2, 3};
+    uint16_t n = 0;
+    std::vector<uint16_t> ys{9};
+    template <class R> void reflect(R &r) { r &xs; r &n; r &ys; }
+    template <class Ar> void serialize_reflect(Ar &ar) const { ar &xs; ar &n; ar &ys; }
+    template <class Ar> void serialize_reflect(Ar &ar) { ar &xs; ar &n; ar &ys; }
+    auto tied() { return std::tie(xs, n, ys); }
+    typedef std::tuple<std::vector<uint8_t>, uint16_t, std::vector<uint16_t>> as_tuple;
+};
+struct TC1 // declared a, b, c (sizeof 12, 6 padding bytes); reflected c, a, b
+{
+    uint8_t a;
+    uint32_t b;
+    uint8_t c;
+    template <class R> void reflect(R &r) { r &c; r &a; r &b; }
+    template <class Ar> void serialize_reflect(Ar &ar) const { ar &c; ar &a; ar &b; }
+    template <class Ar> void serialize_reflect(Ar &ar) { ar &c; ar &a; ar &b; }
+    auto tied() { return std::tie(c, a, b); }
+    typedef std::tuple<uint8_t, uint8_t, uint32_t> as_tuple;
+};
+static_assert(std::is_trivially_copyable<TC1>::value && sizeof(TC1) == 12, "TC1: trivially copyable, padded");
+
 // ---------------------------------------------------------------- stack interface
 // One writer / one reader per call, several values in sequence.
 struct stack_iface
@@ -446,6 +481,10 @@ struct stack_iface
     // the value after a trip through the C++ object (pure STL, no igris code): a std::map<K,V> built by
     // insert() from the entries in the given order and iterated - std::less<K> is the oracle for the key order
     virtual DV canon(const std::string &desc, const DV &v) { (void)desc; return v; }
+    // round 3: the in-place API (igris::deserialize(reader, obj) / deserializer::deserialize(obj)) on an object that
+    // already holds `dest`
+    virtual DV decode_into(const std::string &desc, const DV &dest, const uint8_t *p, size_t n, size_t &consumed) = 0;
+    // several values through ONE reader over a (possibly truncated) input: same as decode_seq (kept apart for clarity)
 };
 stack_iface &stack_a();
 stack_iface &stack_s();
@@ -486,4 +525,5 @@ template <class Writer, class Reader> struct type_h
     virtual bytes enc_api(const DV &) = 0;
     virtual DV dec_api(const bytes &) = 0;
     virtual DV canon(const DV &d) { return d; }
+    virtual DV dec_into(Reader &, const DV &dest) = 0;
 };
